@@ -1247,7 +1247,7 @@ func (s *sharedEntryAttributes) validateMandatoryWithKeys(ctx context.Context, l
 			// of its former version does not count
 			exists, err := s.treeContext.cacheClient.IntendedPathExists(ctx, append(s.Path(), attribute))
 			if exists && err == nil {
-				exists = s.treeContext.cacheClient.GetBranchesHighesPrecedence(ctx, append(s.Path(), attribute), CacheUpdateFilterExcludeOwner(s.treeContext.GetActualOwner())) != math.MaxInt32
+				exists = s.treeContext.cacheClient.GetBranchesHighesPrecedence(ctx, append(s.Path(), attribute), CacheUpdateFilterExcludeOwners(s.treeContext.IsActualOwner)) != math.MaxInt32
 			}
 			owner := "unknown"
 			if s.leafVariants.Length() > 0 {
@@ -1342,7 +1342,7 @@ func (s *sharedEntryAttributes) populateChoiceCaseResolvers(ctx context.Context)
 			isNew := false
 			var val2 *int32
 			// Query the Index, stored in the treeContext for the per branch highes precedence
-			v := s.treeContext.GetTreeSchemaCacheClient().GetBranchesHighesPrecedence(ctx, append(s.Path(), elem), CacheUpdateFilterExcludeOwner(s.treeContext.GetActualOwner()))
+			v := s.treeContext.GetTreeSchemaCacheClient().GetBranchesHighesPrecedence(ctx, append(s.Path(), elem), CacheUpdateFilterExcludeOwners(s.treeContext.IsActualOwner))
 
 			child, childExists := s.childs.GetEntry(elem)
 			// set the value from the tree as well
